@@ -7,7 +7,9 @@
    - Gen_sim.cfg: -simulate random walks of SimLen decisions.                                    *)
 EXTENDS I_Dedupe, Json
 
-CONSTANTS SimLen
+CONSTANTS SimLen,
+          WRelease, WRestart, WStatus   \* weights for -simulate (TLC picks uniformly among the generated
+                                        \* successors, duplicates included); 1 for exhaustive runs
 VARIABLE hist
 gvars == <<vars, hist>>
 
@@ -19,10 +21,10 @@ GNext ==
   \/ /\ Len(hist) = SimLen /\ hist' = Append(hist, [op |-> "end"]) /\ UNCHANGED vars
   \/ /\ Len(hist) < SimLen
      /\ \/ \E b \in UpdBatches : LET us == Typed(eview, b) IN Step(IOnUpdates(us), [op |-> "upd", kvs |-> us])
-        \/ \E s \in Statuses : Step(IOnStatus(s), [op |-> "status", s |-> s])
-        \/ Step(IRestart, [op |-> "restart"])
-        \/ Step(IStart, [op |-> "start"])
-        \/ Step(IRelease, [op |-> "release"])
+        \/ \E s \in Statuses, w \in 1..WStatus : Step(IOnStatus(s), [op |-> "status", s |-> s])
+        \/ \E w \in 1..WRestart : Step(IRestart, [op |-> "restart"])
+        \/ \E w \in 1..WRelease : Step(IStart, [op |-> "start"])
+        \/ \E w \in 1..WRelease : Step(IRelease, [op |-> "release"])
         \/ IPull /\ UNCHANGED hist
 
 GView == vars
